@@ -13,9 +13,20 @@ HID = " [only-through-cached-experiment]"
 from .scenario import split_tid
 
 
-def run_steps(run):
+def stdout_broke(st):
+    """injected I/O fault: the reader of Conductor's own stdout went away and the command died of the
+    BrokenPipeError (uncaught, as in any Python program).  What it printed cannot be judged then; what it
+    started, overlapped, recorded or left on disk still is (C01, C04, C06, C08)."""
+    inv = st.inv
+    return bool(st.op.get("own_stdout")) and inv is not None and inv.internal is not None \
+        and inv.internal[0] == "BrokenPipeError"
+
+
+def run_steps(run, io_faulted=False):
     for i, st in enumerate(run.steps):
         if st.op["op"] == "run" and st.inv is not None:
+            if not io_faulted and stdout_broke(st):
+                continue
             yield i, st
 
 
@@ -119,7 +130,7 @@ def _probe_coalesced(o, facts):
 def check_C01(run):
     V, facts = [], {"nontrivial": []}
     tasks = run.scn["tasks"]
-    for i, st in run_steps(run):
+    for i, st in run_steps(run, io_faulted=True):
         inv = st.inv
         if inv.killed:
             continue
@@ -182,6 +193,16 @@ def check_C01(run):
 def check_C02(run):
     V, facts = [], {"nontrivial": []}
     tasks = run.scn["tasks"]
+    # what is reusable is decided by the recorded versions: commands that only read them (or only remove
+    # unrecorded directories) must leave them alone, or the next run executes tasks it had no reason to
+    for i, st in enumerate(run.steps):
+        if st.op["op"] in ("gc", "where", "archive") and st.inv is not None and not st.inv.killed \
+                and st.before is not None and st.after is not None \
+                and isinstance(st.before["rows"], list) and isinstance(st.after["rows"], list):
+            lost = [list(r) for r in st.before["rows"] if tuple(r) not in set(map(tuple, st.after["rows"]))]
+            if lost:
+                V.append(Violation("C02", "reusable-version-lost-its-record-through-cond-%s" % st.op["op"],
+                                   {"lost": lost[:4]}, i))
     for i, st in run_steps(run):
         inv = st.inv
         if inv.killed or inv.deadlock is not None:
@@ -406,7 +427,7 @@ def _check_stop_early(o, inv, i, needed, F, S, V):
 def check_C04(run):
     V, facts = [], {"nontrivial": []}
     tasks = run.scn["tasks"]
-    for i, st in run_steps(run):
+    for i, st in run_steps(run, io_faulted=True):
         inv = st.inv
         if inv.killed:
             continue
@@ -1444,6 +1465,15 @@ def check_C13(run):
                                {"internal": list(inv.internal)[:3]}, i))
         elif inv.code != 0:
             V.append(Violation("C13", "gc-failed", {"err": inv.err.decode("utf-8", "replace")[-300:]}, i))
+        if isinstance(st.after["rows"], list) and sorted(map(tuple, st.after["rows"])) != sorted(map(tuple, rows)):
+            # gc removes directories that have no recorded version; the set of recorded versions is not its to
+            # change (a version that loses its record is an unrecorded directory for the next gc)
+            V.append(Violation("C13", "gc-changed-the-recorded-versions",
+                               {"lost": [list(r) for r in rows if tuple(r) not in set(map(tuple, st.after["rows"]))][:4],
+                                "dry_run": bool(flags.get("dry"))}, i))
+        if st.before.get("relocated") != st.after.get("relocated"):
+            V.append(Violation("C13", "gc-modified-data-outside-cond-out (relocated outputs behind a symbolic link)",
+                               {"links": sorted(st.before.get("relocated", {}))[:4]}, i))
         gone_all = {p for p in tb if p not in ta}
         gone_top = {p for p in gone_all if not any(p.startswith(q + "/") for q in gone_all)}
         changed = {p for p in ta if p in tb and ta[p] != tb[p]} | {p for p in ta if p not in tb}
@@ -1541,6 +1571,9 @@ def check_C18(run):
                     continue
                 drel = os.path.relpath(ddir, co)
                 nonempty = ta.get(drel) == ("d",) and any(k.startswith(drel + "/") for k in ta)
+                if drel in st.after.get("relocated", {}):
+                    # the dependency's directory was moved elsewhere by hand, a link took its place
+                    nonempty = bool(st.after["relocated"][drel])
                 if not nonempty:
                     continue
                 name = split_tid(d)[1]
